@@ -14,12 +14,24 @@ from .common import *
 # ------------------------------------------------------------------------------------------------
 # small helpers
 # ------------------------------------------------------------------------------------------------
+def const_value(body, text):
+    """f64 value of a constant operand: a literal, or a NAMED constant (`const ATOL: f64 = 1e-6;` at item or function level), which
+    is resolved to the value of its single definition in the constants table of the facts -- the name itself means nothing"""
+    v = T.f64_const(text)
+    if v is not None: return v
+    F = getattr(body, 'facts', None)
+    t = text.strip()
+    if t.startswith('const '): t = t[6:]
+    if F is not None and t in F.consts: return T.f64_const(F.consts[t][1])
+    return None
+
+
 def f64_of_operand(body, operand, depth=8):
-    """the f64 constant an operand holds, directly or hoisted into a `let` / `const` (single-definition copies)"""
+    """the f64 constant an operand holds: literal, named constant, or hoisted into a `let` (single-definition copies)"""
     if operand is None: return None
-    if operand['k'] == 'const': return T.f64_const(operand['v'])
+    if operand['k'] == 'const': return const_value(body, operand['v'])
     e = T.strip_wrappers(T.expr(body, operand, depth=depth))
-    if e[0] == 'const': return T.f64_const(e[1])
+    if e[0] == 'const': return const_value(body, e[1])
     return None
 
 
@@ -202,7 +214,7 @@ def _describe_cmp(b, st, roles=None):
             l, r = r, l
             op = {'Lt': 'Gt', 'Gt': 'Lt', 'Le': 'Ge', 'Ge': 'Le'}.get(op, op)
     tol = T.strip_wrappers(r)
-    tolv = T.f64_const(tol[1]) if tol[0] == 'const' else 'given'
+    tolv = const_value(b, tol[1]) if tol[0] == 'const' else 'given'
     return dict(op=op, abs=T.expr_has_call(l, 'abs'), tol=tolv, value=T.expr_str(l), neg=any(x[0] == 'un' and x[1] == 'Neg' for x in T.expr_walk(l)))
 
 
@@ -338,6 +350,63 @@ def origins(body, operand):
                 elif mode in ('', 'ok'): leaves.append(('call', bi, call))
                 else: leaves.append(('other', bi, 'call ' + nm[:60]))
     return holders, leaves
+
+
+def value_sources(body, operand, max_steps=200):
+    """Like origins(), for values that travel inside tuples: follows ALL definitions backwards while keeping a stack of the
+    projections still to be applied -- ('t', i) tuple component, 'ok' payload of Ok/Some, 'cont' payload of Continue -- so that
+        let (v, ids) = match f { Some(f) => f.evaluate(s)?, None => (0.0, BTreeSet::new()) };   ..  v
+    yields the two sources of v: the evaluate call (pending ['ok', ('t', 0)]) and the constant 0.0.
+    -> list of (kind, bb, obj, pending):  ('const', bb, text, []) | ('call', bb, Call, pending) | ('place', bb, expr, pending)
+       | ('param', 0, index, pending) | ('other', bb, description, pending)"""
+    leaves = []; seen = set(); work = []
+    def elems(pl):
+        out = []; p = [x for x in pl['p'] if x != '*']; i = 0
+        while i < len(p):
+            x = p[i]
+            if isinstance(x, dict) and 'dc' in x and i + 1 < len(p) and isinstance(p[i + 1], dict) and p[i + 1].get('f') == '0' and x['dc'] in ('Continue', 'Some', 'Ok'):
+                out.append('cont' if x['dc'] == 'Continue' else 'ok'); i += 2; continue
+            if isinstance(x, dict) and 'f' in x and x.get('of') == 'tuple' and x['f'].isdigit(): out.append(('t', int(x['f']))); i += 1; continue
+            return None
+        return out
+    def visit_op(o, pending, bb):
+        if o['k'] == 'const':
+            leaves.append(('const', bb, o['v'], list(pending))); return
+        if o['k'] not in ('copy', 'move'): leaves.append(('other', bb, 'operand', list(pending))); return
+        el = elems(o['pl'])
+        if el is None: leaves.append(('place', bb, T.expr(body, o), list(pending))); return       # a struct field is read: a leaf
+        work.append((o['pl']['l'], tuple(el + list(pending))))
+    visit_op(operand, [], -1)
+    steps = 0
+    while work and steps < max_steps:
+        steps += 1
+        l, pending = work.pop()
+        if (l, pending) in seen: continue
+        seen.add((l, pending)); pending = list(pending)
+        if 1 <= l <= body.argc: leaves.append(('param', 0, l, pending)); continue
+        for k, bi, d in body.defs_of(l):
+            if k == 'stmt':
+                if d['dst']['p']: leaves.append(('other', bi, 'partial write', pending)); continue
+                rv = d['rv']; kk = rv['k']
+                if kk == 'use': visit_op(rv['ops'][0], pending, bi)
+                elif kk == 'ref': visit_op({'k': 'copy', 'pl': rv['pl']}, pending, bi)
+                elif kk == 'agg':
+                    adt = rv['adt']; top = pending[0] if pending else None
+                    if adt == 'tuple' and isinstance(top, tuple) and top[1] < len(rv['ops']): visit_op(rv['ops'][top[1]], pending[1:], bi)
+                    elif top == 'ok' and adt.endswith(OK_WRAP): visit_op(rv['ops'][0], pending[1:], bi)
+                    elif top == 'ok' and adt.endswith(ERR_WRAP): pass
+                    elif top == 'cont' and adt.endswith('ControlFlow::Continue'): visit_op(rv['ops'][0], pending[1:], bi)
+                    elif top == 'cont' and adt.endswith('ControlFlow::Break'): pass
+                    else: leaves.append(('other', bi, 'aggregate ' + adt, pending))
+                else: leaves.append(('other', bi, kk, pending))
+            else:
+                nm = d['r'] or d['f']; top = pending[0] if pending else None
+                call = [c for c in body.calls if c.bb == bi][0]
+                if top == 'cont' and T.TRY_BRANCH.search(nm): visit_op(d['args'][0], ['ok'] + pending[1:], bi)
+                elif top == 'ok' and T.FROM_RESIDUAL.search(nm): pass
+                elif top == 'ok' and PASS_OK.search(T.strip_generics_tail(nm)) and d['args']: visit_op(d['args'][0], pending, bi)
+                else: leaves.append(('call', bi, call, pending))
+    return leaves
 
 
 # ------------------------------------------------------------------------------------------------
@@ -699,7 +768,7 @@ def concrete_eval(F, body, args, depth=0):
             t = o['v'].replace('const ', '').strip()
             if t == 'true': return True
             if t == 'false': return False
-            x = T.f64_const(t)
+            x = const_value(body, t)
             if x is None: raise Unsupported('const ' + t)
             return x
         if o['k'] in ('copy', 'move'): return place(o['pl'])
@@ -791,8 +860,9 @@ class StructValue:
        fields[f] = operand that holds the final value of field f (a place `base.f` for inherited fields), None if the field
        is written on some successful paths only; bb[f] = block of that write; where = block in which the value is complete"""
 
-    def __init__(self, adt, local, fields, bbs, where):
+    def __init__(self, adt, local, fields, bbs, where, defaulted=None):
         self.adt = adt; self.local = local; self.fields = fields; self.bb = bbs; self.where = where
+        self.defaulted = defaulted or {}          # field -> Default::default() call it is inherited from (`..Default::default()`)
 
     def st(self):
         """in the shape of an aggregate statement, for agg_field_operand()"""
@@ -834,7 +904,7 @@ def returned_struct(ctx, body, adt):
     if names is None or len(holders) != 1: return None
     adt_full = None
     R = holders[0]
-    fields = {}; bbs = {}; where = [None]
+    fields = {}; bbs = {}; where = [None]; defaulted = {}
 
     def field_place(l, f, base_p=()):
         return {'k': 'copy', 'pl': {'l': l, 'p': list(base_p) + [{'f': f, 'of': adt}]}}
@@ -864,6 +934,8 @@ def returned_struct(ctx, body, adt):
                 src = rv['ops'][0]['pl']
                 if not src['p']: return resolve(src['l'], f, depth + 1)
                 return field_place(src['l'], f, src['p']), bi                                # the struct comes out of a tuple / payload
+        if len(defs) == 1 and defs[0][0] == 'call' and re.search(r' as std::default::Default>::default$', defs[0][2]['r'] or defs[0][2]['f']):
+            defaulted[f] = [c for c in body.calls if c.bb == defs[0][1]][0]
         return field_place(l, f), (defs[0][1] if defs else None)
 
     for f in names:
@@ -874,7 +946,28 @@ def returned_struct(ctx, body, adt):
     w = None
     for b in cand:
         if all(body.dominates(o, b) or o == b for o in cand): w = b
-    return StructValue(adt, R, fields, bbs, w if w is not None else (cand[0] if cand else 0))
+    return StructValue(adt, R, fields, bbs, w if w is not None else (cand[0] if cand else 0), defaulted)
+
+
+def field_is_none(ctx, body, sv, f):
+    """the final value of Option field f of the returned struct is None: written as `None`, or left to the struct's
+    `Default::default()` (update syntax / default-then-assign) whose own value of that field is None"""
+    op = sv.fields.get(f)
+    if op is None: return False
+    e = T.expr(body, op)
+    if e[0] == 'agg' and e[1].endswith('Option::None'): return True
+    c = sv.defaulted.get(f)
+    if c is None: return False
+    cb = ctx.F.bodies.get(c.path) or ctx.F.bodies.get(c.name)
+    if cb is not None:
+        dv = returned_struct(ctx, cb, sv.adt)
+        if dv is not None and dv.fields.get(f) is not None:
+            e2 = T.expr(cb, dv.fields[f])
+            return e2[0] == 'agg' and e2[1].endswith('Option::None')
+    # the Default impl is not in the facts: Default of an Option field is None by definition of derive(Default) / prost
+    a = ctx.F.adt(sv.adt)
+    tys = {x['name']: x.get('ty', '') for x in a['variants'][0]['fields']} if a else {}
+    return tys.get(f, '').startswith('std::option::Option<')
 
 
 # ------------------------------------------------------------------------------------------------
